@@ -64,6 +64,12 @@ def run(ctx):
                 "non-trivial = the recipe has a requirement or cannot be honoured")
     ctx.model_check("MC_CharGen", "MC_CharGen.cfg", "CharGen (MaxFailRate = 1): ErrIff, TrialsBounded, no panic without a fault", workers=vlib.NCPU)
     ctx.model_check("MC_CharGen", "MC_CharGen_default.cfg", "CharGen (default refusal band): GenerousRecipeNeverRefused, ErrIff", workers=vlib.NCPU)
+    ok0, _ = ctx.apalache("CharGenApa", inv="IndInv", length=0, init="Init")
+    ok1, _ = ctx.apalache("CharGenApa", inv="IndInv", length=1, init="IndInv")
+    if not (ok0 and ok1):
+        raise vlib.Undecided("Apalache refutes the inductive invariant of the retry loop (model-level)")
+    ctx.cover["apalache"] = ("CharGenApa.IndInv is inductive for symbolic MaxTrials and Length up to 100000: attempts <= MaxTrials, draws = attempts x Length "
+                             "<= MaxTrials x Length, 'exhausted' only after exactly MaxTrials complete candidates")
     scen = char_scenarios(rng, quick)
     uni = charfam.tlc_universe(ctx, 3, 2)
     rng.shuffle(uni)
